@@ -25,7 +25,7 @@ CLAIMED = {
                 "Tied to /repo by differential execution (boundary values incl. SIZE_MAX neighbours x element sizes 1-64 x with/"
                 "without xtors, closure over small sizes, random histories, allocation plans) comparing size, capacity, contents, the "
                 "realloc request log and per-slot xtor events under ASan; storage-ledger oracle.",
-        "note": TB + " The harness decides allocation outcomes itself (plan string; every request above 64 KiB fails) and the model driver applies the same rule. Translator tie (tools/c2lean_vec.py, Vec/Tie.lean): set_capacity (overflow guard and byte count), at, reserve, shrink, resize with both xtor loops, swap, clear are regenerated from the C AST on every run with explicit wrap-around only where the clang type is a 64-bit unsigned type and proved equal to the model (21 theorems).",
+        "note": TB + " The harness decides allocation outcomes itself (plan string; every request above 64 KiB fails) and the model driver applies the same rule. Translator tie (tools/c2lean_vec.py, Vec/Tie.lean): set_capacity (overflow guard and byte count), at, reserve, shrink, resize with both xtor loops, swap, clear are regenerated from the C AST on every run with explicit wrap-around only where the clang type is a 64-bit unsigned type and proved equal to the model (21 theorems); the sort/reverse/search/find wrappers are translated too (Vec/Tie2.lean: they pass base, count, element size and the scratch slot at index cap; vsort_tie/vreverse_tie under Inv).",
         "technique": "Lean 4 proof (invariant over operation lists with explicit 64-bit arithmetic, all allocator answers) + model/implementation correspondence check",
     },
     "C10": {
@@ -39,7 +39,7 @@ CLAIMED = {
                 "(closure over short strings incl. embedded NUL, positions/counts from the boundary set, random histories) comparing "
                 "size, capacity, every unit incl. the terminator, results and abort/segv; libc itself is the reference for find/compare "
                 "in the harness; reference-string oracle.",
-        "note": TB + " Translator tie (Vec/Tie.lean, 80 theorems): the string functions of both instantiations (narrow, wide) incl. the repaired guards of substr_prep, __resize and prep_insert, the NUL-fill and character-fill loops, erase/substr/insert/append are regenerated from the C AST on every run and proved equal to the model; find/compare/str and the strlen-based entry points are not translated. reserve on a string that holds nothing followed by str() returns storage without a terminator (reserve is outside C10's operation list; generators keep observers away from that state; recorded as an observation in DESIGN section 5).",
+        "note": TB + " Translator tie (Vec/Tie.lean, 80 theorems): the string functions of both instantiations (narrow, wide) incl. the repaired guards of substr_prep, __resize and prep_insert, the NUL-fill and character-fill loops, erase/substr/insert/append are regenerated from the C AST on every run and proved equal to the model; str, find_ch, find_str, find, compare, compare_str and the strlen-based entry points are translated as calls of the libc functions on str() and tied to the model's libc models (Vec/Tie2.lean, 84 theorems incl. the vector wrappers; libc functions and memcpy are vocabulary primitives). reserve on a string that holds nothing followed by str() returns storage without a terminator (reserve is outside C10's operation list; generators keep observers away from that state; recorded as an observation in DESIGN section 5).",
         "technique": "Lean 4 proof (refinement to a reference sequence over operation lists, explicit 64-bit arithmetic) + model/implementation correspondence check",
     },
     "C16": {
@@ -113,7 +113,7 @@ CLAIMED = {
                 "NULL dereference, out-of-bounds bucket or hang), compared with the real code on the same scripts; getBucket, the "
                 "relink loop, clean_bucket, the bucket foreach, erase and insert tails are regenerated from the C AST on every run and "
                 "tied by kernel-checked equalities (HashL.Tie).",
-        "note": TB + " The bucket array's realloc stays an oracle; find's prologue, the rehash sweep loops, foreach and the resize/shrink/clear bodies are tied to the link-level model by correspondence only.",
+        "note": TB + " A second translator (tools/c2lean_hash2.py, HashL/Tie2.lean, 56 theorems) covers the rest of hash.c: find with its visit function, insert, erase, both sweep loops of __cstl_hash_rehash and the adoption of the pending geometry, the keyed lookup sequence, foreach/foreach_const (pending-count bound rule)/clear, resize with set_capacity (overflow guard, byte count), shrink_to_fit, swap, size and load. The bucket array's realloc/free are oracle/event steps; unsigned loop indices are not wrapped; (float) a / b is kept as the pair (a, b).",
         "technique": "Lean 4 proof (inductive invariant, refinement to a multiset spec over operation lists) + exact-state correspondence check",
     },
     "C04": {
@@ -170,7 +170,7 @@ CLAIMED = {
                 "(bt_history_refines) with every child's parent link pointing back (bt_parent_links_ok), is compared with the real code "
                 "on the same scripts, and __cstl_bintree_rotate / __cstl_bintree_erase are re-translated from the C AST on every run "
                 "with kernel-checked `translation = model` ties.",
-        "note": TB + " tools/c2lean_tree.py additionally regenerates cstl_bintree_insert (pointer-to-pointer), find, slide/next, the full erase and the foreach recursion from the C AST on every run, with kernel-checked ties to the link-level model (Tie2: 25 theorems; form: model finishes with r => translation finishes with r); the comparator and the node/element offset helpers are primitives; bintree refinements assume the (unused) colour field is black.",
+        "note": TB + " tools/c2lean_tree.py additionally regenerates cstl_bintree_insert (pointer-to-pointer), find, slide/next, the full erase and the foreach recursion from the C AST on every run, with kernel-checked ties to the link-level model (Tie2: 25 theorems; form: model finishes with r => translation finishes with r); a third translator (tools/c2lean_tree2.py, TreeL/Tie3.lean, 37 theorems) covers cstl_bintree_foreach's direction switch, cstl_bintree_clear (visitor fires exactly on POST and LEAF; callbacks = clearOrder), height, swap and prev; the comparator and the node/element offset helpers are primitives; bintree refinements assume the (unused) colour field is black.",
         "technique": "Lean 4 proof (structural induction, refinement to a multiset spec over operation lists) + model/implementation correspondence check",
     },
     "C02": {
@@ -211,7 +211,7 @@ CLAIMED = {
                 "values x every selector x every pivot draw list x element sizes 1,2,3,4,8,16 (fast paths and memcpy path) under ASan "
                 "with red-zoned buffers, adversarial larger inputs and random scripts, comparing final arrays AND the exact "
                 "comparator/swap call logs; sortedness + multiset + byte-pattern oracle.",
-        "note": TB + " Translator tie (tools/c2lean_sort.py, Sort/Tie.lean, 48 theorems): partition with both scans, pivot selection incl. rand() and median-of-three, quicksort recursion, heapsort child selection / sift-down / heapify / extract, selector dispatch, search, find, reverse are regenerated from the C AST of array.c on every run (pointer arithmetic arr + i*size becomes element indices, C int and size_t conversions explicit) and tied to the model; c_sort_sorted_perm states that the TRANSLATED C function returns a sorted permutation. The comparator, cstl_swap and rand() are primitives of the translation. C stack depth of the recursive quicksort is not modelled (adversarial sizes stay far below the limit); byte-level cstl_swap is modelled as exchange and validated at each element width.",
+        "note": TB + " Translator tie (tools/c2lean_sort.py, Sort/Tie.lean, 48 theorems): partition with both scans, pivot selection incl. rand() and median-of-three, quicksort recursion, heapsort child selection / sift-down / heapify / extract, selector dispatch, search, find, reverse are regenerated from the C AST of array.c on every run (pointer arithmetic arr + i*size becomes element indices, C int and size_t conversions explicit) and tied to the model; c_sort_sorted_perm states that the TRANSLATED C function returns a sorted permutation. The comparator, cstl_swap and rand() are primitives of the translation. Byte-level cstl_swap is modelled on a byte memory (typed little-endian fast paths for 1/2/4/8 bytes, three memcpy's through the scratch buffer otherwise), proved for EVERY size to exchange the two regions and write nothing else but the scratch (Swap/Props: swap_x, swap_y, swap_frame, swap_is_swapAt = the exchange the sort model assumes) and tied to the C AST (Swap/Tie.swap_tie). C stack depth of the recursive quicksort is not modelled (adversarial sizes stay far below the limit).",
         "technique": "Lean 4 proof (loop invariants, permutation/sortedness by induction, termination measures) + call-log-exact correspondence check",
     },
     "C06": {
